@@ -56,6 +56,7 @@ type State struct {
 	Kind    string `json:"kind"`
 	Conf    Conf   `json:"conf"`
 	Due     bool   `json:"due"`
+	Peer    bool   `json:"peer"`
 	Wanted  bool   `json:"wanted"`
 }
 
@@ -105,6 +106,7 @@ type Event struct {
 	Proxy   bool     `json:"proxy"`
 	Kind    string   `json:"kind"`
 	Started bool     `json:"started"`
+	Peer    bool     `json:"peer"` // the persistent remote peer is connected
 }
 
 type world struct {
@@ -120,6 +122,7 @@ type world struct {
 	hash  hash.Hash
 	t     *tor.Torrent
 	proxy bool
+	keep  int // peers that are meant to stay connected
 	// bigreply: the tracker answers with this many peers, once bigGo is closed
 	big   int
 	bigGo chan struct{}
@@ -335,6 +338,12 @@ var peerSeq byte = 0x40
 // first messages reveal.  clientFirst: storrent sends its handshake first.
 // It returns whether the handshake completed.
 func (w *world) remotePeer(conn net.Conn, clientFirst bool) bool {
+	return w.remotePeerStay(conn, clientFirst, false)
+}
+
+// remotePeerStay: with stay, after the first messages the remote sends a
+// bitfield (it has the even pieces), never unchokes, and keeps reading.
+func (w *world) remotePeerStay(conn net.Conn, clientFirst bool, stay bool) bool {
 	peerSeq++
 	mine := w.handshake(peerSeq)
 	theirs := make([]byte, 68)
@@ -404,6 +413,14 @@ func (w *world) remotePeer(conn net.Conn, clientFirst bool) bool {
 			// bitfield / have-all / have-none close the initial writes
 			conn.SetDeadline(time.Now().Add(150 * time.Millisecond))
 		}
+	}
+	if stay {
+		conn.SetDeadline(time.Time{})
+		bf := []byte{0, 0, 0, 6, 5, 0xaa, 0xaa, 0xaa, 0xaa, 0xaa} // 40 pieces: the even ones
+		if _, err := conn.Write(bf); err != nil {
+			return false
+		}
+		go io.Copy(io.Discard, conn)
 	}
 	return true
 }
@@ -567,6 +584,12 @@ func runCase(c *Case, out *Out) {
 	defer cancel()
 
 	seen := map[string]bool{}
+	var persistent net.Conn
+	defer func() {
+		if persistent != nil {
+			persistent.Close()
+		}
+	}()
 	var outstanding []<-chan struct{}
 	nextPiece := 0
 	cur := c.Init
@@ -701,6 +724,37 @@ func runCase(c *Case, out *Out) {
 				w.add("incoming:refused")
 			}
 			w.dropPeers()
+		case "PeerJoin":
+			c1, c2 := net.Pipe()
+			res := make(chan error, 1)
+			go func() {
+				res <- tor.Server(tcpConn{c1, &net.TCPAddr{IP: net.ParseIP("198.51.100.77"), Port: 50077}}, crypto.DefaultOptions(false, false))
+			}()
+			ok := w.remotePeerStay(c2, false, true)
+			select {
+			case <-res:
+			case <-time.After(3 * time.Second):
+			}
+			if !ok {
+				out.Note = desc + ": the persistent peer could not connect"
+				return
+			}
+			w.add("incoming:accepted")
+			persistent = c2
+			w.keep = 1
+			for n := 0; n < 100; n++ {
+				if st, err := t.GetStats(); err == nil && st.NumPeers >= 1 {
+					break
+				}
+				time.Sleep(10 * time.Millisecond)
+			}
+		case "PeerLeave":
+			if persistent != nil {
+				persistent.Close()
+				persistent = nil
+			}
+			w.keep = 0
+			w.dropPeers()
 		case "Outgoing":
 			if c.Init.Proxy {
 				res := make(chan error, 1)
@@ -807,7 +861,7 @@ func runCase(c *Case, out *Out) {
 			lab.C = &Conf{}
 		}
 		out.Events = append(out.Events, Event{L: lab, Obs: tobs, Conf: Conf{Trk: rc.UseTrackers, Ws: rc.UseWebseeds, Dht: rc.DhtMode.String()},
-			Proxy: c.Init.Proxy, Kind: c.Init.Kind, Started: true})
+			Proxy: c.Init.Proxy, Kind: c.Init.Kind, Started: true, Peer: persistent != nil})
 		for o := range expect {
 			if !gs[o] {
 				out.Nonconf = append(out.Nonconf, fmt.Sprintf("%s: the model expects %s, not observed (observed %v)", desc, o, obs))
@@ -835,12 +889,12 @@ func runCase(c *Case, out *Out) {
 }
 
 func (w *world) dropPeers() {
-	for n := 0; n < 100; n++ {
+	for n := 0; n < 150; n++ {
 		st, err := w.t.GetStats()
-		if err != nil || st.NumPeers == 0 {
+		if err != nil || st.NumPeers <= w.keep {
 			return
 		}
-		if n%10 == 0 {
+		if n%10 == 9 && w.keep == 0 {
 			w.t.DropPeer()
 		}
 		time.Sleep(20 * time.Millisecond)
